@@ -489,6 +489,10 @@ pub fn invariants<K: KeyT, const N: usize>(s: &Set<K, N>, cx: &mut Ctx, extra: P
         cx.check(pm, s.contains::<K>(k), || format!("contains({}) is false for a yielded element", k.kd()));
         let g = s.get::<K>(k).map(|x| x as *const K);
         cx.check(pm, g == Some(*k as *const K), || format!("get({}) does not return the yielded element", k.kd()));
+        if K::DISTINCT_Q {
+            let (bg, bc) = K::with_q(k.kd().k, |q| (s.get(q).map(|x| x as *const K), s.contains(q)));
+            cx.check(pm, bg == Some(*k as *const K) && bc, || format!("element {} yielded by iter() is not found through its borrowed form", k.kd()));
+        }
     }
 }
 
